@@ -565,10 +565,101 @@ def c20(out):
                  sample_keys=("alg", "old", "new", "variants", "runs"))
 
 
+@prop("C18")
+def c18(out):
+    def nt(r):
+        return len(r["result"]) >= 2 or (r["p"] > 0 and len(r["result"]) >= 1 and r["n"] > 0)
+    calls_family(out, "c18", {"closematch", "panic"}, nt,
+                 "get_close_matches (str and [u8]) on words derived from base words by few edits (up to 20 chars, multi-byte, empty), "
+                 "candidate lists with duplicates / empty strings / the word itself, n in 0..5, cutoffs as rationals p/q incl. 0, 1 and "
+                 "the exact ratio of one candidate; TLC recomputes every ratio with the LCS oracle and checks the result is the first n "
+                 "of the ranking by (ratio desc, lexicographic) among candidates with ratio >= cutoff (CloseMatchesA.tla, integer "
+                 "cross-multiplication); non-trivial = >=2 results, or >=1 under a positive cutoff",
+                 sample_keys=("word", "cands", "n", "p", "q", "result"))
+
+
+@prop("C16")
+def c16(out):
+    def nt(r):
+        return any(o["tag"] == 3 and any(seg[0] == 1 for c in o["inline"] for seg in c[3]) for o in r["per_op"])
+    trace, res = calls_family(out, "c16", {"tags_indices", "segments", "emphasis", "missing_newline", "panic"}, nt,
+                 "TextDiff::iter_inline_changes_deadline for every op of line diffs whose replaced lines are similar (so the inline "
+                 "differ engages), with multi-byte words, mixed terminators, missing final newline, invalid UTF-8 in bytes mode, "
+                 "inline deadline none / already expired (virtual clock, fuel 0); plain and inline expansions are both recorded and "
+                 "compared by TLC (InlineA.tla); non-trivial = a Replace op produced at least one emphasised segment",
+                 sample_keys=("alg", "mode", "expired", "old", "new", "per_op"))
+    # the cfg(not(feature = "unicode")) branch of the inline differ
+    core.build_harness(nounicode=True)
+    calls_family(out, "c16", {"tags_indices", "segments", "emphasis", "missing_newline", "panic"}, nt,
+                 out.cov["rule"], sample_keys=("alg", "mode", "expired", "old", "new"), nounicode=True, name="c16_nounicode")
+    out.level = "exploration"
+
+
+@prop("C05")
+def c05(out):
+    def nt(r):
+        return r["out_w"].count(64) >= 4 and r["hint"]
+    trace = drive(out, "c05")
+    n = nt_n = multi = crs = nonl = 0
+    seen = set()
+    samples = []
+    for r in scan_records(trace):
+        n += 1
+        if r["hint"] and r["out_w"]:
+            key = json.dumps([r["old"], r["new"], r["radius"], r["header"], r["mode"], r["alg"]])
+            if key not in seen:
+                seen.add(key)
+                nt_n += 1
+                txt = bytes(r["out_w"])
+                multi += txt.count(b"@@ -") >= 2
+                crs += b"\r" in txt
+                nonl += b"\\ No newline" in txt
+                if len(samples) < 3 and len(txt) < 200:
+                    samples.append({"old": bytes(r["old"]).decode("latin1"), "new": bytes(r["new"]).decode("latin1"),
+                                    "radius": r["radius"], "out": txt.decode("latin1")})
+    out.add("evaluations", n)
+    out.add("distinct_nontrivial", nt_n)
+    out.add("nontrivial_multi_hunk", multi)
+    out.add("nontrivial_cr_lines", crs)
+    out.add("nontrivial_missing_newline", nonl)
+    out.add("rule", "one evaluation = one rendering (to_writer, Display and the per-hunk writers) of a line diff: all pairs of texts of "
+                    "<=2 lines (3 thorough) over {a LF, b LF, a CRLF, b CR, a} plus random line texts (mixed terminators, missing final "
+                    "newline, invalid UTF-8 in bytes mode), radius 0..3, header on/off, 3 algorithms, str and [u8]; TLC parses the bytes "
+                    "with Patch.tla and applies them strictly to old; non-trivial = at least one hunk rendered with the newline hint on; "
+                    "counted separately: >=2 hunks, CR-terminated lines, missing-newline marker")
+    out.add("samples", samples)
+    res = core.validate("TraceCalls", trace, out.prop)
+    out.add("traces_validated_against_impl", n)
+    out.add("states", res["states"])
+    out.add("transitions", res["lines"])
+    by_case = {}
+    for c, cl, ln in res["rejects"]:
+        by_case.setdefault(c, set()).update(cl)
+    viol, known = [], []
+    for c, cl in sorted(by_case.items()):
+        rel = cl & {"patch", "patch_rep", "writer_display", "writer_hunks", "panic"}
+        if "patch" in rel and "patch_rep" not in rel:
+            known.append(c)
+            rel.discard("patch")
+        if rel:
+            viol.append((c, sorted(rel), 0))
+    if viol:
+        paths, bc = core.write_replays(out.prop, trace, viol, dict(family="c05"))
+        for c in sorted(bc)[:8]:
+            out.violation(f"c05 case {c}: clause(s) {sorted(bc[c])}", paths.get(c, "n/a"))
+    if known:
+        r = json.loads(core.read_cases(trace, known[:1])[known[0]][0])
+        out.known.append("KF-2 udiff.rs hunk header positions computed from the stale carried indices left by the compact.rs swap "
+                         f"arms ({len(known)} renderings rejected as shipped and accepted with the swap repair on, e.g. "
+                         f"old={bytes(r['old'])!r} new={bytes(r['new'])!r} radius={r['radius']} -> {bytes(r['out_w'])!r})")
+        out.add("known_finding_hits", len(known))
+
+
 # --------------------------------------------------------------------------- setup / selftest / replay
 
 def setup():
     core.build_harness()
+    core.build_harness(nounicode=True)
     import subprocess
     bad = 0
     for d in ("abstract", "impl", "trace", "mc"):
